@@ -25,7 +25,7 @@ def run(ctx):
         full = []
         for q in reqs:
             full.append(q)
-            if q[0] != 'info':
+            if q[0] not in ('info', 'ninc'):
                 full.append(('info', q[1], q[2], q[3]))
         fs = '\x01'.join('%s\x02%s' % (p, c) for p, c in files.items())
         ms = '\x01'.join('%s\x02%s' % (p, v) for p, v in maps)
@@ -73,6 +73,12 @@ def run(ctx):
                         if n_mm <= 3:
                             rep.violation('correspondence', {'property': 'C16', 'kind': 'model-vs-implementation', 'seed': ctx.seed, 'case': c['id'],
                                                              'mappings': c['maps'], 'request': q, 'implementation': ans, 'model': b[k], 'line': c['line'][:9000]})
+                elif q[0] == 'ninc':
+                    # an include inside an included file is resolved from that file's place
+                    if not ans.startswith('T=') or 'gx = 7001;'.encode().hex() not in ans or 'gx = 7002;'.encode().hex() in ans:
+                        bad = {'request': q, 'expected': 'the text of sub/nest_b.hpp (the neighbour of the including file), not of nest_b.hpp beside the outermost file',
+                               'implementation': (bytes.fromhex(ans[2:]).decode('latin-1') if ans.startswith('T=') else ans)[:400]}
+                        break
                 else:
                     # the operator must act on exactly the file the same request resolves to
                     info = a[k + 1]
